@@ -31,6 +31,8 @@ type TierOpt struct {
 	MaxSteps int
 	Horizon  int64
 	Timeout  int // solver timeout ms
+	Solver   string
+	NoCross  bool // skip the cross-solver diff in the thorough tier (too slow on the other back ends)
 }
 
 // Run describes one harness of a property.
@@ -221,6 +223,9 @@ func checkMain(args []string) int {
 		o.RaceMode = opt.Race
 		o.Known = known
 		o.Params = opt.Params
+		if opt.Solver != "" {
+			o.SolverName = opt.Solver
+		}
 		if opt.MaxPaths > 0 {
 			o.MaxPaths = opt.MaxPaths
 		}
@@ -259,15 +264,18 @@ func checkMain(args []string) int {
 			engineErrors = append(engineErrors, r.Harness+": path budget exhausted (bound not covered)")
 		}
 		// thorough: diff the verdicts of a second and third solver
-		if *tier == "thorough" && !opt.Race && opt.Sched == 0 {
-			for _, sv := range []string{"z3-new", "cvc5"} {
+		if *tier == "thorough" && !opt.Race && opt.Sched == 0 && !opt.NoCross {
+			for _, sv := range []string{"z3", "z3-new", "cvc5"} {
+				if sv == o.SolverName {
+					continue
+				}
 				o2 := o
 				o2.SolverName = sv
 				h2 := sym.Explore(p, fn, o2)
 				sum := fmt.Sprintf("paths=%d violations=%s inconclusive=%d", h2.Paths, violKey(h2.Violations), len(h2.Inconcl))
 				oc.Cross[sv] = sum
 				if violKey(h2.Violations) != violKey(hr.Violations) && len(h2.Inconcl) == 0 && len(h2.Unsupported) == 0 {
-					engineErrors = append(engineErrors, fmt.Sprintf("%s: solver disagreement z3 vs %s: %s vs %s", r.Harness, sv, violKey(hr.Violations), violKey(h2.Violations)))
+					engineErrors = append(engineErrors, fmt.Sprintf("%s: solver disagreement %s vs %s: %s vs %s", r.Harness, o.SolverName, sv, violKey(hr.Violations), violKey(h2.Violations)))
 				}
 			}
 		}
